@@ -3,6 +3,8 @@ import PqV.Lemmas.Varint
 import PqV.Gen.SkipDef
 import PqV.Lemmas.KPlain
 import PqV.Gen.RangeIndex
+import PqV.Lemmas.SkipDef
+import PqV.Lemmas.ReadPage
 /-!
 # C01 — write → read round trip under every write option
 
@@ -14,63 +16,14 @@ layouts decode to the intended levels, INT96 and time-unit conversions are exact
 cutting a column into pages at any offsets loses nothing.
 -/
 namespace PqV.Props.C01
-open PqV.Spec PqV.Gen.SkipDef
-
-/-- iterations of `while n: ...; n //= shrink` -/
-def iters (shrink : Nat) : Nat → Nat → Nat
-  | 0, _ => 0
-  | fuel + 1, n => if n = 0 then 0 else 1 + iters shrink fuel (n / shrink)
-
-/-- bytes `skip_definition_bytes(io, num)` skips (constants regenerated from core.py) -/
-def skipLen (num : Nat) : Nat := base + step * iters shrink (num + 1) (num / div)
-
-/-- bytes of the null-free definition-level block `make_definitions` writes for `num` rows
-    (constants regenerated from writer.py): length prefix, varint(num << shift), the value byte -/
-def blockLen (num : Nat) : Nat := lenPrefix + uvarintLen (num <<< shift) + 1
-
-theorem uvarintLen_step (x : Nat) : uvarintLen x = if x < 128 then 1 else 1 + uvarintLen (x / 128) := by
-  unfold uvarintLen
-  conv => lhs; unfold uvarintEnc
-  split <;> simp <;> omega
-
-theorem varint_iters : ∀ (fuel m : Nat), m < fuel → uvarintLen m = 1 + iters 128 fuel (m / 128) := by
-  intro fuel
-  induction fuel with
-  | zero => intro m h; omega
-  | succ f ih =>
-    intro m h
-    rw [uvarintLen_step]
-    by_cases hm : m < 128
-    · have : m / 128 = 0 := by omega
-      simp [hm, this, iters]
-    · have hd : m / 128 ≠ 0 := by omega
-      simp only [hm, if_false, iters, hd]
-      rw [ih (m / 128) (by omega)]
+open PqV.Spec PqV.Gen.SkipDef PqV.Impl
 
 /-- **the reader's shortcut skips exactly the block the writer wrote**, for every row count — the
     constants 6 / 64 / 128 of `skip_definition_bytes` and the layout of `make_definitions` are
     regenerated from the source on every run, so an edit to either that breaks the agreement breaks
-    this theorem. -/
-theorem skip_matches_block (num : Nat) : skipLen num = blockLen num := by
-  simp only [skipLen, blockLen, base, step, shrink, div, lenPrefix, shift, Nat.shiftLeft_eq, Nat.pow_one, Nat.one_mul]
-  rw [varint_iters (num * 2 + 1) (num * 2) (by omega)]
-  have : num * 2 / 128 = num / 64 := by omega
-  rw [this]
-  -- iters with fuel num+1 vs num*2+1: both exceed the argument
-  have key : ∀ (f1 f2 n : Nat), n < f1 → n < f2 → iters 128 f1 n = iters 128 f2 n := by
-    intro f1
-    induction f1 with
-    | zero => intro f2 n h; omega
-    | succ f ih =>
-      intro f2 n h1 h2
-      obtain ⟨g, rfl⟩ : ∃ g, f2 = g + 1 := ⟨f2 - 1, by omega⟩
-      simp only [iters]
-      by_cases hn : n = 0
-      · simp [hn]
-      · simp only [hn, if_false]
-        rw [ih g (n / 128) (by omega) (by omega)]
-  rw [key (num + 1) (num * 2 + 1) (num / 64) (by omega) (by omega)]
-  omega
+    this theorem.  (`skipLen`: bytes `skip_definition_bytes(io, num)` steps over; `blockLen`: length prefix +
+    varint(num << 1) + the value byte; both in `Impl.ReadPage` / `Lemmas.SkipDef`.) -/
+theorem skip_matches_block (num : Nat) : skipLen num = blockLen num := skipLen_eq_blockLen num
 
 /-- the value byte of the null-free block is the level it stands for -/
 theorem block_value_now : value = 1 := by decide
@@ -207,5 +160,64 @@ theorem old_stop_formula_short : min 4 (rangeLen 10 (10 + 4 * (-1) + 1) (-1)) = 
 example : rangeLen 5 13 2 = 4 ∧ rangeLen 10 6 (-1) = 4 ∧ rangeLen 0 (-12) (-3) = 4 ∧ rangeLen 3 3 1 = 0 := by decide
 
 end rangeIndex
+
+section readBack
+open PqV.Impl
+
+/-- **write → read at page level, through the models of BOTH real routines**: `Impl.writerPageBody` is the model of what
+    `write_column` lays down (tied byte for byte by the `wpage.chunk` stream), `Impl.readDataPage` + `placePage` the
+    model of `core.read_data_page` and of `read_col`'s placement (tied by the `rpage.v1` stream, which runs the real
+    function on every v1 page the run writes).  For ANY column spec with v1 pages (physical type, REQUIRED / OPTIONAL,
+    PLAIN or dictionary with 1-, 2-, 4-byte signed codes) and ANY cells the type can hold — any number of rows incl. 0,
+    any null pattern — the reader returns exactly the cells (for a categorical column the category each code names):
+    through `read_def`, through the `skip_definition_bytes` shortcut when the chunk statistics say "no null"
+    (`skip = true`; the shortcut's constants are REGENERATED from core.py and the block layout from writer.py), through
+    `read_plain`, and through the byte-exact `np.frombuffer` shortcut for fastparquet's own dictionary codes. -/
+theorem read_back_written_page (c : ColSpec) (hv : c.v2 = false) (hpt : c.ptype ≤ 7) (cats cells : List Cell)
+    (hok : PageOk c cats.length cells) (skip : Bool) (hskip : skip = true → ∀ v ∈ cells, v ≠ Cell.null)
+    (hitem : ∀ item, c.dictItem = some item →
+      (item = 1 ∨ item = 2 ∨ item = 4) ∧ ∀ v ∈ nonNull cells, cellNat v < 2 ^ (item * 8 - 1)) :
+    (readDataPage (!c.hasNulls) (leafOf c).maxDef c.ptype c.typeLength (encOf c) cells.length skip true
+        (writerPageBody c cells)).bind (placePage (leafOf c).maxDef (dictOf c cats))
+      = some (cells.map (render c cats)) :=
+  Impl.read_back_written_page c hv hpt cats cells hok skip hskip hitem
+
+/-- **… and at column-chunk level**: whatever way the rows are cut into pages, reading the pages in order and
+    concatenating what is placed gives the column. -/
+theorem read_back_written_column (c : ColSpec) (hv : c.v2 = false) (hpt : c.ptype ≤ 7) (cats : List Cell) (pages : List (List Cell))
+    (hok : ∀ p ∈ pages, PageOk c cats.length p) (skip : Bool) (hskip : skip = true → ∀ p ∈ pages, ∀ v ∈ p, v ≠ Cell.null)
+    (hitem : ∀ item, c.dictItem = some item →
+      (item = 1 ∨ item = 2 ∨ item = 4) ∧ ∀ p ∈ pages, ∀ v ∈ nonNull p, cellNat v < 2 ^ (item * 8 - 1)) :
+    (pages.mapM fun cells =>
+        (readDataPage (!c.hasNulls) (leafOf c).maxDef c.ptype c.typeLength (encOf c) cells.length skip true
+          (writerPageBody c cells)).bind (placePage (leafOf c).maxDef (dictOf c cats))).map List.flatten
+      = some (pages.flatten.map (render c cats)) := by
+  induction pages with
+  | nil => simp
+  | cons p ps ih =>
+    have h1 := Impl.read_back_written_page c hv hpt cats p (hok p List.mem_cons_self) skip
+      (fun h => hskip h p List.mem_cons_self)
+      (fun item hi => ⟨(hitem item hi).1, (hitem item hi).2 p List.mem_cons_self⟩)
+    have ih' := ih (fun q hq => hok q (List.mem_cons_of_mem _ hq)) (fun h q hq => hskip h q (List.mem_cons_of_mem _ hq))
+      (fun item hi => ⟨(hitem item hi).1, fun q hq => (hitem item hi).2 q (List.mem_cons_of_mem _ hq)⟩)
+    rw [List.mapM_cons, h1]
+    cases hm : (ps.mapM fun cells =>
+        (readDataPage (!c.hasNulls) (leafOf c).maxDef c.ptype c.typeLength (encOf c) cells.length skip true
+          (writerPageBody c cells)).bind (placePage (leafOf c).maxDef (dictOf c cats))) with
+    | none => rw [hm] at ih'; simp at ih'
+    | some rest =>
+      rw [hm] at ih'
+      simp only [Option.map_some, Option.some.injEq] at ih'
+      simp [ih']
+
+/-! non-vacuity: an OPTIONAL INT32 page with a null read through `read_def`; a null-free one through the shortcut -/
+example : (readDataPage false 1 PT_INT32 0 ENC_PLAIN 3 false true
+      (writerPageBody { ptype := PT_INT32, hasNulls := true, v2 := false } [Cell.int 7, Cell.null, Cell.int 9])).bind
+        (placePage 1 none) = some [Cell.int 7, Cell.null, Cell.int 9] := by decide +kernel
+example : (readDataPage false 1 PT_INT32 0 ENC_PLAIN 2 true true
+      (writerPageBody { ptype := PT_INT32, hasNulls := true, v2 := false } [Cell.int 7, Cell.int 9])).bind
+        (placePage 1 none) = some [Cell.int 7, Cell.int 9] := by decide +kernel
+
+end readBack
 
 end PqV.Props.C01
